@@ -579,7 +579,7 @@ fn check_too_many(r: &Report) {
 
 pub fn run_rollback(r: &Report) {
     let kinds = failure_kinds();
-    let pre = prefixes(3);
+    let pre = prefixes(if r.tier().is_thorough() { 4 } else { 3 });
     r.counters.add("prefixes", pre.len() as u64);
     r.counters.add("failure_kinds", kinds.len() as u64 + 1);
     let mut work: Vec<(usize, usize)> = Vec::new();
@@ -617,7 +617,7 @@ pub fn run_rollback(r: &Report) {
         }
     }
     check_too_many(r);
-    r.set_rule("E-ENUM rollback. Every sequence of 0..3 good values over {int, text, list<int>, null, not-set, empty blob} (259 prefixes) x every failure kind (29: wrong native type x4; 2nd element/key/value/field failing in list, set, list<list>, map, fixed and variable vector, tuple, UDT, list<UDT>; wrong vector dimension; tuple too long x2; unknown UDT field; UDT name mismatch; empty into non-emptiable x2; value overflow x3; simulated size overflow after 0 / 33+nested bytes, inside list and tuple): the list is bytewise, count-wise and cell-wise identical after the failed add, the error has the expected root cause, and a following good value lands as the reference encodes it; every ordered pair of failures in a row; the 65536th value (good or failing) on a full list. distinct_nontrivial = cases where the failure happened, state was verified intact and the next value verified.");
+    r.set_rule("E-ENUM rollback. Every sequence of 0..3 (thorough: 0..4) good values over {int, text, list<int>, null, not-set, empty blob} (259 / 1555 prefixes) x every failure kind (29: wrong native type x4; 2nd element/key/value/field failing in list, set, list<list>, map, fixed and variable vector, tuple, UDT, list<UDT>; wrong vector dimension; tuple too long x2; unknown UDT field; UDT name mismatch; empty into non-emptiable x2; value overflow x3; simulated size overflow after 0 / 33+nested bytes, inside list and tuple): the list is bytewise, count-wise and cell-wise identical after the failed add, the error has the expected root cause, and a following good value lands as the reference encodes it; every ordered pair of failures in a row; the 65536th value (good or failing) on a full list. distinct_nontrivial = cases where the failure happened, state was verified intact and the next value verified.");
     r.set_exhaustive(true);
     r.assume("a > 2 GiB value cannot be materialised; the size-overflow path is simulated by a SerializeValue impl that appends bytes (directly and through nested sub-writers) and then returns an error");
     r.sample(json!({"prefix": ["int 1", "list<int> [1,2]"], "failing": "vector-variable-2nd-element", "then": "int 0x11223344"}));
